@@ -108,6 +108,18 @@ def run(chk):
         ("explicit-both", cA, cA.copy(), {"a", "c"}, {"h"}),
         ("single-endpoint", cA, retyped(cA, "g", "or"), None, {"h"}),
     ]
+    # a single compared endpoint that is itself a tied startpoint (feed-through), and circuits whose only output is an input
+    cF = build({"a": ("input", []), "b": ("input", []), "g": ("and", ["a", "b"])}, outputs=["a", "g"])
+    cases.append(("feed-through::single endpoint is a tied input", cF, cF.copy(), None, {"a"}))
+    cG = build({"a": ("input", []), "b": ("input", [])}, outputs=["a"])
+    cases.append(("feed-through::only output is an input", cG, cG.copy(), None, None))
+    cases.append(("feed-through::explicit endpoints a,g", cF, retyped(cF, "g", "nand"), None, {"a", "g"}))
+    # untied startpoints with default endpoints: the differing endpoint depends only on tied inputs
+    cH = build({"a": ("input", []), "b": ("input", []), "o1": ("not", ["a"]), "o2": ("and", ["a", "b"])}, outputs=["o1", "o2"])
+    cI = build({"a": ("input", []), "b": ("input", []), "o1": ("buf", ["a"]), "o2": ("and", ["a", "b"])}, outputs=["o1", "o2"])
+    cases.append(("partial-tie::differing endpoint sees only tied inputs", cH, cI, {"a"}, None))
+    cJ = build({"a": ("input", []), "c": ("input", []), "o1": ("buf", ["a"]), "o2": ("or", ["a", "c"])}, outputs=["o1", "o2"])
+    cases.append(("different-inputs::differing endpoint sees only common inputs", cH, cJ, None, None))
     for name, c0, c1, sps, eps in cases:
         r = P.call(FILE, "miter", c0, c1, sps, eps)
         n += 1
